@@ -28,6 +28,37 @@ theorem unsafePre_ok {a : Option (List Toks)} {c : List Toks} (ha : Ok a c) :
   unfold Ok at *; unfold unsafePre; grind
 
 
+theorem binderPre_ok' {a : Option (List Toks)} {c : List Toks} (pinned : Bool) (o : Toks) (ha : Ok a c)
+    (hp : pinned = false ∨ a = some c) :
+    Ok (binderPre pinned o a) (if c.isEmpty then [] else o ++ sepBy comma c ++ [tP '>']) := by
+  unfold Ok at *; unfold binderPre; grind
+
+theorem unsafePre_ok' {a : Option (List Toks)} {c : List Toks} (pinned : Bool) (ha : Ok a c)
+    (hp : pinned = false ∨ a = some c) :
+    Ok (unsafePre pinned a) ([kw "unsafe", tP '<'] ++ sepBy comma c ++ [tP '>']) := by
+  unfold Ok at *; unfold unsafePre; grind
+
+/-- a binder of lifetimes always rewrites -/
+theorem rwParams_lifetimes (e : Env) : ∀ (b : Params) (p : Piece) (i : Nat), lbParams b = true →
+    rwParams e p i b = some (canonParams e.abi b)
+  | .nil, p, i, _ => by simp [rwParams, canonParams]
+  | .lifetime n bs r, p, i, h => by
+      have ih := rwParams_lifetimes e r p (i + 1) (by simpa [lbParams] using h)
+      simp [rwParams, canonParams, ih]
+  | .type .., p, i, h => by simp [lbParams] at h
+  | .const .., p, i, h => by simp [lbParams] at h
+
+/-- the hypothesis of a child from the hypothesis of its parent -/
+macro "lb_tac" : tactic =>
+  `(tactic| (try simp only [lbTy, lbOptTy, lbTys, lbSegs, lbGArgs, lbBounds, lbParams, lbFnArgs, Bool.and_eq_true] at *
+             grind))
+/-- not the old code, or a binder of lifetimes (which rewrites) -/
+macro "lb_pin" h:ident : tactic =>
+  `(tactic| (try simp only [lbTy, lbOptTy, lbTys, lbSegs, lbGArgs, lbBounds, lbFnArgs, Bool.and_eq_true] at $h:ident
+             rcases $h:ident with hh | hh
+             · exact Or.inl hh
+             · exact Or.inr (rwParams_lifetimes _ _ _ _ (by grind))))
+
 /-- closes a constructor case once the facts about the sub-rewrites are in the context -/
 macro "types_case" : tactic =>
   `(tactic| (simp only [Ok, rwTy, rwOptTy, rwTys, rwTysPlain, rwSegs, rwGArgs, rwBounds, rwParams, rwFnArgs,
@@ -35,157 +66,156 @@ macro "types_case" : tactic =>
       binderToks] at *; grind))
 
 mutual
-theorem rwTy_ok (e : Env) (he : e.pinned = false) : ∀ (t : Ty) (p : Piece), Ok (rwTy e p t) (canonTy e.abi t)
-  | .path g segs, p => by
-      have h0 := rwSegs_ok e he segs (p ++ [0]) 0 false
+theorem rwTy_ok (e : Env) : ∀ (t : Ty) (p : Piece), (e.pinned = false ∨ lbTy t = true) → Ok (rwTy e p t) (canonTy e.abi t)
+  | .path g segs, p, h => by
+      have h0 := rwSegs_ok e segs (p ++ [0]) 0 false (by lb_tac)
       types_case
-  | .qpath q tg tr rest, p => by
-      have h0 := rwTy_ok e he q (p ++ [0])
-      have h1 := rwSegs_ok e he tr (p ++ [1]) 0 false
-      have h2 := rwSegs_ok e he rest (p ++ [2]) 0 false
+  | .qpath q tg tr rest, p, h => by
+      have h0 := rwTy_ok e q (p ++ [0]) (by lb_tac)
+      have h1 := rwSegs_ok e tr (p ++ [1]) 0 false (by lb_tac)
+      have h2 := rwSegs_ok e rest (p ++ [2]) 0 false (by lb_tac)
       types_case
-  | .ref lt m t, p => by
-      have h0 := rwTy_ok e he t (p ++ [0])
+  | .ref lt m t, p, h => by
+      have h0 := rwTy_ok e t (p ++ [0]) (by lb_tac)
       types_case
-  | .ptr m t, p => by
-      have h0 := rwTy_ok e he t (p ++ [0])
+  | .ptr m t, p, h => by
+      have h0 := rwTy_ok e t (p ++ [0]) (by lb_tac)
       types_case
-  | .never, p => by types_case
-  | .infer, p => by types_case
-  | .tup ts, p => by
-      have h0 := rwTys_ok e he ts (p ++ [0]) 0
+  | .never, p, h => by types_case
+  | .infer, p, h => by types_case
+  | .tup ts, p, h => by
+      have h0 := rwTys_ok e ts (p ++ [0]) 0 (by lb_tac)
       types_case
-  | .paren t, p => by
-      have h0 := pick_ok (e.fits (p ++ [2])) (att_ok (e.fits (p ++ [3])) (rwTy_ok e he t (p ++ [0])))
-        (rwTy_ok e he t (p ++ [1]))
+  | .paren t, p, h => by
+      have h0 := pick_ok (e.fits (p ++ [2])) (att_ok (e.fits (p ++ [3])) (rwTy_ok e t (p ++ [0]) (by lb_tac)))
+        (rwTy_ok e t (p ++ [1]) (by lb_tac))
       types_case
-  | .array t n, p => by
-      have h0 := rwTy_ok e he t (p ++ [0])
+  | .array t n, p, h => by
+      have h0 := rwTy_ok e t (p ++ [0]) (by lb_tac)
       types_case
-  | .slice t, p => by
-      have h0 := rwTy_ok e he t (p ++ [0])
+  | .slice t, p, h => by
+      have h0 := rwTy_ok e t (p ++ [0]) (by lb_tac)
       types_case
-  | .implTrait bs, p => by
-      have h0 := joinB_ok (e.fits (p ++ [2])) (rwBounds_ok e he bs (p ++ [0]) 0) (rwBounds_ok e he bs (p ++ [1]) 0)
+  | .implTrait bs, p, h => by
+      have h0 := joinB_ok (e.fits (p ++ [2])) (rwBounds_ok e bs (p ++ [0]) 0 (by lb_tac)) (rwBounds_ok e bs (p ++ [1]) 0 (by lb_tac))
       types_case
-  | .traitObj d bs, p => by
-      have h0 := joinB_ok (e.fits (p ++ [2])) (rwBounds_ok e he bs (p ++ [0]) 0) (rwBounds_ok e he bs (p ++ [1]) 0)
+  | .traitObj d bs, p, h => by
+      have h0 := joinB_ok (e.fits (p ++ [2])) (rwBounds_ok e bs (p ++ [0]) 0 (by lb_tac)) (rwBounds_ok e bs (p ++ [1]) 0 (by lb_tac))
       types_case
-  | .bareFn b u ex args v ret, p => by
-      have h0 := binderPre_ok [kw "for", tP '<'] (rwParams_ok e he b (p ++ [0]) 0)
-      have h1 := rwOptTy_ok e he ret (p ++ [2]) arrow
-      have h2 := rwFnArgs_ok e he args (p ++ [1]) 0
-      rw [← he] at h0
+  | .bareFn b u ex args v ret, p, h => by
+      have h0 := binderPre_ok' e.pinned [kw "for", tP '<'] (rwParams_ok e b (p ++ [0]) 0 (by lb_tac))
+        (by lb_pin h)
+      have h1 := rwOptTy_ok e ret (p ++ [2]) arrow (by lb_tac)
+      have h2 := rwFnArgs_ok e args (p ++ [1]) 0 (by lb_tac)
       types_case
-  | .unsafeBinder b t, p => by
-      have h0 := unsafePre_ok (rwParams_ok e he b (p ++ [0]) 0)
-      have h1 := rwTy_ok e he t (p ++ [1])
-      rw [← he] at h0
+  | .unsafeBinder b t, p, h => by
+      have h0 := unsafePre_ok' e.pinned (rwParams_ok e b (p ++ [0]) 0 (by lb_tac)) (by lb_pin h)
+      have h1 := rwTy_ok e t (p ++ [1]) (by lb_tac)
       types_case
-  | .pat t lo incl hi, p => by
-      have h0 := rwTy_ok e he t (p ++ [0])
+  | .pat t lo incl hi, p, h => by
+      have h0 := rwTy_ok e t (p ++ [0]) (by lb_tac)
       types_case
-theorem rwOptTy_ok (e : Env) (he : e.pinned = false) :
-    ∀ (t : OptTy) (p : Piece) (pre : Toks), Ok (rwOptTy e p pre t) (canonOptTy e.abi pre t)
-  | .none, p, pre => by types_case
-  | .some t, p, pre => by
-      have h0 := rwTy_ok e he t p
+theorem rwOptTy_ok (e : Env) :
+    ∀ (t : OptTy) (p : Piece) (pre : Toks), (e.pinned = false ∨ lbOptTy t = true) → Ok (rwOptTy e p pre t) (canonOptTy e.abi pre t)
+  | .none, p, pre, h => by types_case
+  | .some t, p, pre, h => by
+      have h0 := rwTy_ok e t p (by lb_tac)
       types_case
-theorem rwTys_ok (e : Env) (he : e.pinned = false) :
-    ∀ (ts : Tys) (p : Piece) (i : Nat), Ok (rwTys e p i ts) (canonTys e.abi ts)
-  | .nil, p, i => by types_case
-  | .cons t r, p, i => by
-      have h0 := pick_ok (e.fits (p ++ [i, 2])) (rwTy_ok e he t (p ++ [i, 0])) (rwTy_ok e he t (p ++ [i, 1]))
-      have h1 := rwTys_ok e he r p (i + 1)
+theorem rwTys_ok (e : Env) :
+    ∀ (ts : Tys) (p : Piece) (i : Nat), (e.pinned = false ∨ lbTys ts = true) → Ok (rwTys e p i ts) (canonTys e.abi ts)
+  | .nil, p, i, h => by types_case
+  | .cons t r, p, i, h => by
+      have h0 := pick_ok (e.fits (p ++ [i, 2])) (rwTy_ok e t (p ++ [i, 0]) (by lb_tac)) (rwTy_ok e t (p ++ [i, 1]) (by lb_tac))
+      have h1 := rwTys_ok e r p (i + 1) (by lb_tac)
       types_case
-theorem rwTysPlain_ok (e : Env) (he : e.pinned = false) :
-    ∀ (ts : Tys) (p : Piece) (i : Nat), Ok (rwTysPlain e p i ts) (canonTys e.abi ts)
-  | .nil, p, i => by types_case
-  | .cons t r, p, i => by
-      have h0 := rwTy_ok e he t (p ++ [i])
-      have h1 := rwTysPlain_ok e he r p (i + 1)
+theorem rwTysPlain_ok (e : Env) :
+    ∀ (ts : Tys) (p : Piece) (i : Nat), (e.pinned = false ∨ lbTys ts = true) → Ok (rwTysPlain e p i ts) (canonTys e.abi ts)
+  | .nil, p, i, h => by types_case
+  | .cons t r, p, i, h => by
+      have h0 := rwTy_ok e t (p ++ [i]) (by lb_tac)
+      have h1 := rwTysPlain_ok e r p (i + 1) (by lb_tac)
       types_case
-theorem rwSegs_ok (e : Env) (he : e.pinned = false) :
-    ∀ (s : Segs) (p : Piece) (i : Nat) (expr : Bool), Ok (rwSegs e p i expr s) (canonSegs e.abi expr s)
-  | .nil, p, i, expr => by types_case
-  | .plain n r, p, i, expr => by
-      have h0 := rwSegs_ok e he r p (i + 1) expr
+theorem rwSegs_ok (e : Env) :
+    ∀ (s : Segs) (p : Piece) (i : Nat) (expr : Bool), (e.pinned = false ∨ lbSegs s = true) → Ok (rwSegs e p i expr s) (canonSegs e.abi expr s)
+  | .nil, p, i, expr, h => by types_case
+  | .plain n r, p, i, expr, h => by
+      have h0 := rwSegs_ok e r p (i + 1) expr (by lb_tac)
       types_case
-  | .angle n args r, p, i, expr => by
-      have h0 := rwSegs_ok e he r p (i + 1) expr
-      have h1 := att_ok (e.fits (p ++ [i, 0])) (rwGArgs_ok e he args (p ++ [i, 0]) 0)
+  | .angle n args r, p, i, expr, h => by
+      have h0 := rwSegs_ok e r p (i + 1) expr (by lb_tac)
+      have h1 := att_ok (e.fits (p ++ [i, 0])) (rwGArgs_ok e args (p ++ [i, 0]) 0 (by lb_tac))
       types_case
-  | .fn n ins ret r, p, i, expr => by
-      have h0 := rwSegs_ok e he r p (i + 1) expr
-      have h1 := rwOptTy_ok e he ret (p ++ [i, 1]) arrow
-      have h2 := rwTysPlain_ok e he ins (p ++ [i, 0]) 0
+  | .fn n ins ret r, p, i, expr, h => by
+      have h0 := rwSegs_ok e r p (i + 1) expr (by lb_tac)
+      have h1 := rwOptTy_ok e ret (p ++ [i, 1]) arrow (by lb_tac)
+      have h2 := rwTysPlain_ok e ins (p ++ [i, 0]) 0 (by lb_tac)
       types_case
-  | .elided n r, p, i, expr => by
-      have h0 := rwSegs_ok e he r p (i + 1) expr
+  | .elided n r, p, i, expr, h => by
+      have h0 := rwSegs_ok e r p (i + 1) expr (by lb_tac)
       types_case
-theorem rwGArgs_ok (e : Env) (he : e.pinned = false) :
-    ∀ (a : GArgs) (p : Piece) (i : Nat), Ok (rwGArgs e p i a) (canonGArgs e.abi a)
-  | .nil, p, i => by types_case
-  | .lt n r, p, i => by
-      have h0 := rwGArgs_ok e he r p (i + 1)
+theorem rwGArgs_ok (e : Env) :
+    ∀ (a : GArgs) (p : Piece) (i : Nat), (e.pinned = false ∨ lbGArgs a = true) → Ok (rwGArgs e p i a) (canonGArgs e.abi a)
+  | .nil, p, i, h => by types_case
+  | .lt n r, p, i, h => by
+      have h0 := rwGArgs_ok e r p (i + 1) (by lb_tac)
       types_case
-  | .ty t r, p, i => by
-      have h0 := pick_ok (e.fits (p ++ [i, 2])) (rwTy_ok e he t (p ++ [i, 0])) (rwTy_ok e he t (p ++ [i, 1]))
-      have h1 := rwGArgs_ok e he r p (i + 1)
+  | .ty t r, p, i, h => by
+      have h0 := pick_ok (e.fits (p ++ [i, 2])) (rwTy_ok e t (p ++ [i, 0]) (by lb_tac)) (rwTy_ok e t (p ++ [i, 1]) (by lb_tac))
+      have h1 := rwGArgs_ok e r p (i + 1) (by lb_tac)
       types_case
-  | .const br v r, p, i => by
-      have h0 := rwGArgs_ok e he r p (i + 1)
+  | .const br v r, p, i, h => by
+      have h0 := rwGArgs_ok e r p (i + 1) (by lb_tac)
       types_case
-  | .assocEq n ga t r, p, i => by
-      have h0 := rwGArgs_ok e he r p (i + 1)
-      have h1 := att_ok (e.fits (p ++ [i, 0])) (rwGArgs_ok e he ga (p ++ [i, 0]) 0)
-      have h2 := rwTy_ok e he t (p ++ [i, 1])
+  | .assocEq n ga t r, p, i, h => by
+      have h0 := rwGArgs_ok e r p (i + 1) (by lb_tac)
+      have h1 := att_ok (e.fits (p ++ [i, 0])) (rwGArgs_ok e ga (p ++ [i, 0]) 0 (by lb_tac))
+      have h2 := rwTy_ok e t (p ++ [i, 1]) (by lb_tac)
       types_case
-  | .assocBound n ga bs r, p, i => by
-      have h0 := rwGArgs_ok e he r p (i + 1)
-      have h1 := att_ok (e.fits (p ++ [i, 0])) (rwGArgs_ok e he ga (p ++ [i, 0]) 0)
-      have h2 := joinB_ok (e.fits (p ++ [i, 3])) (rwBounds_ok e he bs (p ++ [i, 1]) 0)
-        (rwBounds_ok e he bs (p ++ [i, 2]) 0)
+  | .assocBound n ga bs r, p, i, h => by
+      have h0 := rwGArgs_ok e r p (i + 1) (by lb_tac)
+      have h1 := att_ok (e.fits (p ++ [i, 0])) (rwGArgs_ok e ga (p ++ [i, 0]) 0 (by lb_tac))
+      have h2 := joinB_ok (e.fits (p ++ [i, 3])) (rwBounds_ok e bs (p ++ [i, 1]) 0 (by lb_tac))
+        (rwBounds_ok e bs (p ++ [i, 2]) 0 (by lb_tac))
       types_case
-theorem rwBounds_ok (e : Env) (he : e.pinned = false) :
-    ∀ (b : Bounds) (p : Piece) (i : Nat), Ok (rwBounds e p i b) (canonBounds e.abi b)
-  | .nil, p, i => by types_case
-  | .trait paren b c a pol g path r, p, i => by
-      have h0 := binderPre_ok [kw "for", tP '<'] (rwParams_ok e he b (p ++ [i, 0]) 0)
-      have h1 := rwSegs_ok e he path (p ++ [i, 1]) 0 false
-      have h2 := rwBounds_ok e he r p (i + 1)
-      rw [← he] at h0
+theorem rwBounds_ok (e : Env) :
+    ∀ (b : Bounds) (p : Piece) (i : Nat), (e.pinned = false ∨ lbBounds b = true) → Ok (rwBounds e p i b) (canonBounds e.abi b)
+  | .nil, p, i, h => by types_case
+  | .trait paren b c a pol g path r, p, i, h => by
+      have h0 := binderPre_ok' e.pinned [kw "for", tP '<'] (rwParams_ok e b (p ++ [i, 0]) 0 (by lb_tac))
+        (by lb_pin h)
+      have h1 := rwSegs_ok e path (p ++ [i, 1]) 0 false (by lb_tac)
+      have h2 := rwBounds_ok e r p (i + 1) (by lb_tac)
       types_case
-  | .outlives n r, p, i => by
-      have h2 := rwBounds_ok e he r p (i + 1)
+  | .outlives n r, p, i, h => by
+      have h2 := rwBounds_ok e r p (i + 1) (by lb_tac)
       types_case
-  | .use args r, p, i => by
-      have h2 := rwBounds_ok e he r p (i + 1)
+  | .use args r, p, i, h => by
+      have h2 := rwBounds_ok e r p (i + 1) (by lb_tac)
       types_case
-theorem rwParams_ok (e : Env) (he : e.pinned = false) :
-    ∀ (b : Params) (p : Piece) (i : Nat), Ok (rwParams e p i b) (canonParams e.abi b)
-  | .nil, p, i => by types_case
-  | .lifetime n bs r, p, i => by
-      have h0 := rwParams_ok e he r p (i + 1)
+theorem rwParams_ok (e : Env) :
+    ∀ (b : Params) (p : Piece) (i : Nat), (e.pinned = false ∨ lbParams b = true) → Ok (rwParams e p i b) (canonParams e.abi b)
+  | .nil, p, i, h => by types_case
+  | .lifetime n bs r, p, i, h => by
+      have h0 := rwParams_ok e r p (i + 1) (by lb_tac)
       types_case
-  | .type n bs d r, p, i => by
-      have h0 := rwParams_ok e he r p (i + 1)
-      have h1 := joinB_ok (e.fits (p ++ [i, 2])) (rwBounds_ok e he bs (p ++ [i, 0]) 0)
-        (rwBounds_ok e he bs (p ++ [i, 1]) 0)
-      have h2 := rwOptTy_ok e he d (p ++ [i, 3]) [tP '=']
+  | .type n bs d r, p, i, h => by
+      have h0 := rwParams_ok e r p (i + 1) (by lb_tac)
+      have h1 := joinB_ok (e.fits (p ++ [i, 2])) (rwBounds_ok e bs (p ++ [i, 0]) 0 (by lb_tac))
+        (rwBounds_ok e bs (p ++ [i, 1]) 0 (by lb_tac))
+      have h2 := rwOptTy_ok e d (p ++ [i, 3]) [tP '='] (by lb_tac)
       simp only [Ok, rwParams, canonParams, att] at *
       rcases h0 with h0 | h0 <;> rcases h1 with h1 | h1 <;> rcases h2 with h2 | h2 <;>
         cases hf : e.fits (p ++ [i]) <;> simp [h0, h1, h2]
-  | .const n t d r, p, i => by
-      have h0 := rwParams_ok e he r p (i + 1)
-      have h1 := rwTy_ok e he t (p ++ [i, 0])
+  | .const n t d r, p, i, h => by
+      have h0 := rwParams_ok e r p (i + 1) (by lb_tac)
+      have h1 := rwTy_ok e t (p ++ [i, 0]) (by lb_tac)
       types_case
-theorem rwFnArgs_ok (e : Env) (he : e.pinned = false) :
-    ∀ (a : FnArgs) (p : Piece) (i : Nat), Ok (rwFnArgs e p i a) (canonFnArgs e.abi a)
-  | .nil, p, i => by types_case
-  | .cons name t r, p, i => by
-      have h0 := rwTy_ok e he t (p ++ [i])
-      have h1 := rwFnArgs_ok e he r p (i + 1)
+theorem rwFnArgs_ok (e : Env) :
+    ∀ (a : FnArgs) (p : Piece) (i : Nat), (e.pinned = false ∨ lbFnArgs a = true) → Ok (rwFnArgs e p i a) (canonFnArgs e.abi a)
+  | .nil, p, i, h => by types_case
+  | .cons name t r, p, i, h => by
+      have h0 := rwTy_ok e t (p ++ [i]) (by lb_tac)
+      have h1 := rwFnArgs_ok e r p (i + 1) (by lb_tac)
       types_case
 end
 
